@@ -44,6 +44,9 @@ a4a3235 C18
 459ad16 C13
 0808f79 C13
 1b8802c C05
+36d3401 C13
+f63dd05 C18
+369895b C12
 REV
 grep -E "$FILTER" "$list" > "$list.f"
 run_one() {
